@@ -55,7 +55,8 @@ for p in props:
             "engine": "vf",
             "level_claimed": {
                 "category": mod.LEVEL,
-                "text": getattr(mod, "LEVEL_TEXT", mod.__doc__.strip().split("\n\n")[0]),
+                "text": getattr(mod, "LEVEL_TEXT", " ".join(mod.__doc__.split())[:1600]
+                                + " -- Level: generated-input search against this explicit oracle (every case is replayable through the pure check function); it shows violations and never establishes their absence, which is the honest level for a universally quantified numerical property."),
                 "design_ref": f"DESIGN.md section 4, {pid}",
             },
             "level_note": getattr(mod, "LEVEL_NOTE", NOTE + "; ".join(getattr(mod, "ASSUMPTIONS", []))),
